@@ -16,6 +16,9 @@ def fuzz(name, test, seconds, **kw):
     return d
 
 PROPS = {
+    "C01": dict(pkg="chain", level="exploration", stages=[
+        rapid("rapid", "TestC01", dict(shards=16, checks=150), dict(shards=16, checks=5000, timeout=6000)),
+    ]),
     "C17": dict(pkg="chain", level="exploration", stages=[
         direct("exhaustive", "TestC17Exhaustive"),
         rapid("rapid", "TestC17", dict(shards=8, checks=1500), dict(shards=16, checks=40000, timeout=3000)),
